@@ -649,3 +649,65 @@ def pattern_column_selection(chk, prog, rule: str) -> int:
                           "unrelated extra column of the user's table (or another column order) changes the result", loc=fi.loc(node))
     chk.ok(rule, "aquacrop", f"column selections in {len(formals)} functions that receive the weather frame", f"{n} by pattern / dtype / position; matcher exercised on the embedded example (5 sites)")
     return len(formals)
+
+
+_REORDER_EXAMPLE = """
+def f(weather_df):
+    a = weather_df.sort_index()
+    b = weather_df.sort_values("MinTemp")
+    c = weather_df.sample(frac=1)
+    ok1 = weather_df.sort_values("Date")
+    ok2 = weather_df.iloc[weather_df.Date.argsort(kind="stable").values]
+    return a
+"""
+
+
+def _reorder_sites(fn: ast.AST, formal: str):
+    """[(node, what)] - the rows of a frame derived from `formal` put into an order that depends on something other than their dates"""
+    frames = {formal}
+    changed = True
+    while changed:
+        changed = False
+        for a in walk_no_nested(fn):
+            if isinstance(a, ast.Assign) and len(a.targets) == 1 and isinstance(a.targets[0], ast.Name) and a.targets[0].id not in frames:
+                core = a.value
+                while isinstance(core, (ast.Call, ast.Attribute, ast.Subscript)):
+                    core = core.func if isinstance(core, ast.Call) else core.value
+                if isinstance(core, ast.Name) and core.id in frames:
+                    frames.add(a.targets[0].id)
+                    changed = True
+    out = []
+    for c in walk_no_nested(fn):
+        if not (isinstance(c, ast.Call) and isinstance(c.func, ast.Attribute) and isinstance(c.func.value, ast.Name) and c.func.value.id in frames):
+            continue
+        m = c.func.attr
+        if m == "sort_index":
+            out.append((c, "rows ordered by the labels of the user's index"))
+        elif m == "sample":
+            out.append((c, "rows shuffled"))
+        elif m == "sort_values":
+            by = c.args[0] if c.args else next((k.value for k in c.keywords if k.arg == "by"), None)
+            if not (isinstance(by, ast.Constant) and by.value == "Date") and not (isinstance(by, ast.List) and [getattr(e, "value", None) for e in by.elts] == ["Date"]):
+                out.append((c, "rows ordered by a column other than Date"))
+    return out
+
+
+def row_reordering(chk, prog, rule: str) -> int:
+    """the model addresses the weather records by day number after checking them against the simulation days: no function that receives the
+    weather frame - the model's setter included, through which the checked table is stored back - puts the rows into an order that depends on
+    anything but their dates (`sort_index()` follows the user's index labels; `sort_values(<other column>)`; `sample`). Re-indexing the table
+    must not change which record a day reads. Expected count zero; the matcher is run on an embedded positive example first."""
+    ex = _reorder_sites(ast.parse(_REORDER_EXAMPLE).body[0], "weather_df")
+    if sorted(w for _, w in ex) != sorted(["rows ordered by the labels of the user's index", "rows ordered by a column other than Date", "rows shuffled"]):
+        raise AnalysisError(f"{rule}: the matcher no longer recognises its positive example ({[w for _, w in ex]})")
+    n = 0
+    formals = sorted(weather_frame_formals(prog))
+    for key, formal in formals:
+        fi = prog.funcs[key]
+        chk.fn(key)
+        for node, what in _reorder_sites(fi.node, formal):
+            n += 1
+            chk.violation(rule, f"{fi.module}:{fi.qualname}", norm(node)[:90], f"{what}: the records are read by day number, so after this the model reads other days' weather "
+                          "whenever the order differs from the chronological one (an index counting down, repeated yearly labels, shuffled labels)", loc=fi.loc(node))
+    chk.ok(rule, "aquacrop", f"row-order operations in {len(formals)} functions that receive the weather frame", f"{n} that depend on index labels / other columns; matcher exercised on the embedded example (3 sites)")
+    return len(formals)
